@@ -11,6 +11,20 @@ use rayon::prelude::*;
 use std::sync::atomic::{AtomicU64, Ordering::Relaxed};
 
 const DEBUG: bool = cfg!(debug_assertions);
+/// are overflow checks on in this build? (decided by probing an addition, the same way rustc decides)
+#[allow(arithmetic_overflow)]
+fn overflow_checks_on() -> bool {
+    std::panic::catch_unwind(|| {
+        let x: u8 = std::hint::black_box(255);
+        std::hint::black_box(x + std::hint::black_box(1))
+    })
+    .is_err()
+}
+static OVF_CELL: std::sync::OnceLock<bool> = std::sync::OnceLock::new();
+#[allow(non_snake_case)]
+fn OVF_get() -> bool {
+    *OVF_CELL.get_or_init(overflow_checks_on)
+}
 
 trait Custom: Copy + Ord + Send + Sync + 'static {
     const NAME: &'static str;
@@ -184,7 +198,7 @@ fn dispatch(ty: &str, kind: &str, a: i128, b: i128) -> Option<String> {
 }
 
 fn case_json(ty: &str, kind: &str, a: i128, b: i128) -> Value {
-    json!({"type": ty, "kind": kind, "a": a.to_string(), "b": b.to_string(), "profile": if DEBUG {"dbg"} else {"release"}})
+    json!({"type": ty, "kind": kind, "a": a.to_string(), "b": b.to_string(), "profile": if DEBUG {"debug-assertions"} else {"no-debug-assertions"}, "overflow_checks": OVF_get()})
 }
 
 fn report(ctx: &Ctx, ty: &str, kind: &str, a: i128, b: i128, msg: String) {
@@ -331,9 +345,11 @@ fn widen(ctx: &Ctx, c: &Counts) {
             guard::enter(&json!({"type": stringify!($T), "kind": "widen", "from": stringify!($U)}).to_string());
             let lo = <$U>::MIN as i128;
             let hi = <$U>::MAX as i128;
-            let vals: Vec<i128> = if hi - lo <= (1 << 16) || ctx.thorough() {
-                (lo..=hi).collect()
+            let complete = hi - lo <= (1 << 16) || ctx.thorough();
+            let vals: Vec<i128> = if complete {
+                Vec::new() // complete domains are walked as a parallel range, never materialised
             } else {
+
                 let mut v: Vec<i128> = Vec::new();
                 for d in 0..(1i128 << 16) {
                     v.extend([lo + d, hi - d, d, -d]);
@@ -348,10 +364,14 @@ fn widen(ctx: &Ctx, c: &Counts) {
                 v.dedup();
                 v
             };
-            let bad = vals.par_iter().find_first(|&&v| <$T>::from(v as $U).val() != v);
-            c.evals.fetch_add(vals.len() as u64, Relaxed);
+            let bad: Option<i128> = if complete {
+                ((lo as i64)..=(hi as i64)).into_par_iter().find_first(|&v| <$T>::from(v as $U).val() != v as i128).map(|v| v as i128)
+            } else {
+                vals.par_iter().find_first(|&&v| <$T>::from(v as $U).val() != v).copied()
+            };
+            c.evals.fetch_add(if complete { (hi - lo + 1) as u64 } else { vals.len() as u64 }, Relaxed);
             ctx.observe(common::fnv_str(name));
-            if let Some(&v) = bad {
+            if let Some(v) = bad {
                 let got = <$T>::from(v as $U).val();
                 ctx.violation(&format!("{}.widen", stringify!($T)), json!({"type": stringify!($T), "kind":"widen", "from": stringify!($U), "a": v.to_string()}),
                     format!("{}::from({}{}) = {got}, numeric value not preserved", stringify!($T), v, stringify!($U)), None);
@@ -412,7 +432,7 @@ fn widen(ctx: &Ctx, c: &Counts) {
 
 fn main() {
     let ctx = Ctx::new("C15", if DEBUG { "dbg" } else { "release" });
-    if (ctx.part == "dbg") != DEBUG {
+    if ctx.part.starts_with("dbg") != DEBUG {
         ctx.machinery_failure(&format!("part {} does not match the build profile (debug_assertions={DEBUG})", ctx.part));
     }
     if let Some(v) = ctx.replay_case() {
@@ -421,7 +441,7 @@ fn main() {
         let a: i128 = v["a"].as_str().and_then(|s| s.parse().ok()).unwrap_or(0);
         let b: i128 = v["b"].as_str().and_then(|s| s.parse().ok()).unwrap_or(0);
         if let Some(p) = v["profile"].as_str() {
-            if (p == "dbg") != DEBUG {
+            if (p == "dbg" || p == "debug-assertions") != DEBUG {
                 eprintln!("note: artefact was recorded in profile {p}");
             }
         }
@@ -431,7 +451,7 @@ fn main() {
     guard::set_hang_secs(120);
     ctx.rule(&format!(
         "profile {}: I11/U11 — every i16 for new/From<i16>, all 2048^2 operand pairs for + - * and ordering, every value for negation; I20 U20 I24 U24 I48 U48 — boundary lattice (MIN..MIN+w, EQ-w..EQ+w, MAX-w..MAX, +-2^k+-1, MAX-2^k, MIN+2^k, floor(sqrt(MAX))+-2; w=64 quick / 700 thorough) squared; From<Rep> over the lattice plus Rep::MIN/MAX neighbourhoods and multiples of 2^bits; 35 widening From impls complete over the source type (i32/u32: lattice in quick); oracle = i128 arithmetic: release => wrap(exact) in [MIN,MAX], debug assertions => exact if in range else panic; non-trivial = the exact result leaves [MIN,MAX] (distinct by type, op and wrapped result)",
-        if DEBUG { "dbg (debug-assertions, overflow-checks)" } else { "release" }
+        format!("{} / overflow-checks {}", if DEBUG { "debug-assertions" } else { "no debug-assertions" }, if OVF_get() { "on" } else { "off" })
     ));
     let c = Counts { evals: AtomicU64::new(0), panics_expected: AtomicU64::new(0), wraps: AtomicU64::new(0) };
     sweep_type::<I11>(&ctx, &c);
@@ -452,6 +472,6 @@ fn main() {
     ctx.sample(json!({"type":"I24","kind":"neg","a":"-8388608","expected": if DEBUG {"panic"} else {"-8388608 (wrapped)"}}));
     ctx.sample(json!({"type":"U48","kind":"from_rep","a": i64::MIN.to_string(), "expected":"0"}));
     ctx.assume("U11 also implements Neg although unsigned; the property speaks of negation of signed types, so U11 negation is not checked. Div/Rem/shifts/bit operators are not part of the statement.");
-    ctx.assume("the dbg profile enables overflow-checks together with debug-assertions (cargo's default coupling); a build with debug assertions on and overflow checks off is a third configuration, not explored here");
+    ctx.assume("expectations depend on debug assertions only, as the property states: all four combinations of (debug-assertions, overflow-checks) are separate driver steps (release, dbg, dbgwrap, relchk)");
     ctx.finish();
 }
